@@ -156,7 +156,12 @@ func check(c Case) (o h.Outcome) {
 		}
 		for _, se := range ses {
 			fields[se.SchemaField] = true
-			ptr := se.JSONPointer()
+			ptr := append([]string(nil), se.JSONPointer()...)
+			// reading the pointer is an accessor: a second read gives the same answer
+			if again := se.JSONPointer(); strings.Join(again, "\x00") != strings.Join(ptr, "\x00") {
+				o.Fail("pointer:"+se.SchemaField+":changes-when-read-again", "mode %s: JSONPointer() of one error is %v, then %v", m.name, ptr, again)
+				return
+			}
 			if len(ptr) > maxTokens {
 				maxTokens = len(ptr)
 			}
